@@ -700,6 +700,10 @@ class PypiVersionRange(VersionRange):
     version_class = versions.PypiVersion
 
     vers_by_native_comparators = {
+        # note: ORDER MATTER here: we tests startswith(key) for each key in sequence
+        # 01.01.01 is NOT equal to 1.1.1 using === which is strict string
+        # equality this is a rare and eventually non-suggested approach
+        "===": None,
         # 01.01.01 is equal 1.1.1 e.g., with version normalization
         "==": "=",
         "!=": "!=",
@@ -712,9 +716,6 @@ class PypiVersionRange(VersionRange):
         # approximately equivalent to the pair of comparison clauses:
         # >= V.N, == V.*
         "~=": None,
-        # 01.01.01 is NOT equal to 1.1.1 using === which is strict string
-        # equality this is a rare and eventually non-suggested approach
-        "===": None,
     }
 
     @classmethod
